@@ -108,7 +108,9 @@ def ask(c, kind, q):
         return probe.okey((call(c.expand, q), call(c.expand_all, q), call(c.standardize_curie, q), call(c.is_curie, q)))
     if kind == "u":
         return probe.okey((call(c.compress, q), call(c.parse_uri, q, return_none=True), call(c.standardize_uri, q)))
-    return probe.okey((call(c.standardize_prefix, q), call(c.get_record, q)[0]))
+    # (the record itself, not only whether there is one, and the question answered through it: seed C05-W - a lazily
+    #  built name index of get_record that a merge does not extend)
+    return probe.okey((call(c.standardize_prefix, q), call(c.get_record, q), call(c.expand_pair_all, q, "1")))
 
 
 # ---- bounded-exhaustive small world: every history of <= 2 (quick) / <= 3 (thorough) operations over 8 records x 4 flag
